@@ -16,7 +16,7 @@ import (
 
 func TestVerif_C09(t *testing.T) {
 	rep := vk.NewReport(t, "C09", "exploration")
-	rep.Rule = "NewMergeHandler over 2-5 (one session in twelve: 6-25) scripted children that answer every EVENT with one OK and every COUNT with one COUNT after seeded delays (out of order across different ids, in submission order for the same id); verdicts, reasons (with and without machine-readable prefixes) and counts are a seeded function of (child, id, occurrence) and every reason names (child, occurrence), so a reply identifies the submission it answers; the client pipelines 1-8 requests over tiny id alphabets (the same event id / COUNT id several times in flight, CLOSE messages for the same ids in between); offline: #OK(id) = #EVENT(id), accepted OKs = all-accept submissions, each rejecting OK begins with the full reason of a rejecting child of a distinct submission that is the lowest-index or the earliest-replying rejecter; #COUNT(id) = #requests and the multiset of values = per-request maxima; non-trivial = a session with a repeated id in flight or mixed verdicts; distinct = distinct (children, request shape, verdict pattern)"
+	rep.Rule = "NewMergeHandler over 2-5 (one session in twelve: 6-25) scripted children that answer every EVENT with one OK and every COUNT with one COUNT after seeded delays (out of order across different ids, in submission order for the same id); verdicts, reasons (with and without machine-readable prefixes; in one session in five oddly shaped: a bare prefix, leading/trailing white space, empty), counts and the optional approximate member are a seeded function of (child, id, occurrence) and every reason names (child, occurrence), so a reply identifies the submission it answers; the client pipelines 1-8 requests over tiny id alphabets (the same event id / COUNT id several times in flight, CLOSE messages for the same ids in between); offline: #OK(id) = #EVENT(id), accepted OKs = all-accept submissions, each rejecting OK begins with the full reason of a rejecting child of a distinct submission that is the lowest-index or the earliest-replying rejecter; #COUNT(id) = #requests and the multiset of values = per-request maxima; non-trivial = a session with a repeated id in flight or mixed verdicts; distinct = distinct (children, request shape, verdict pattern)"
 	defer rep.Finish()
 	pc := &pointCtl{sleep: true, only: "merge."}
 	mocrelay.SetVerifPoint(pc.fn)
@@ -36,7 +36,7 @@ func TestVerif_C09(t *testing.T) {
 		}
 		w := newMWorld()
 		salt := r.Uint64()
-		mode := r.IntN(4) // 0: mostly accept, 1: mixed, 2: reject repeats (duplicate), 3: mostly reject
+		mode := r.IntN(5) // 0: mostly accept, 1: mixed, 2: reject repeats (duplicate), 3: mostly reject, 4: oddly shaped reasons (every id submitted once)
 		h64 := func(child int, id string, k int) uint64 {
 			x := salt ^ uint64(child+1)*0x9E3779B97F4A7C15 ^ uint64(k+1)*0xC2B2AE3D27D4EB4F
 			for j := 0; j < len(id) && j < 16; j++ {
@@ -56,6 +56,26 @@ func TestVerif_C09(t *testing.T) {
 				acc = k == 0 || x%4 == 0
 			case 3:
 				acc = x%5 == 0
+			case 4:
+				acc = x%2 == 0
+				pre := prefixes[(x>>8)%uint64(len(prefixes))]
+				if acc {
+					return true, []string{"", " ", pre}[(x>>16)%3]
+				}
+				// a bare prefix, surrounding white space, nothing at all: the merged text must still
+				// begin with exactly this
+				switch (x >> 16) % 6 {
+				case 0:
+					return false, pre
+				case 1:
+					return false, fmt.Sprintf("%srejected by child %d\n", pre, child)
+				case 2:
+					return false, fmt.Sprintf("%s  rejected by child %d", pre, child)
+				case 3:
+					return false, ""
+				case 4:
+					return false, "   "
+				}
 			}
 			pre := prefixes[(x>>8)%uint64(len(prefixes))]
 			if mode == 2 && !acc {
@@ -70,6 +90,17 @@ func TestVerif_C09(t *testing.T) {
 			}
 			return acc, fmt.Sprintf("%s%s by child %d for submission %d of %.8s;", pre, tag, child, k, id)
 		}
+		w.apxRule = func(child int, sub string, k int) *bool {
+			// the optional "approximate" member of a COUNT reply has no say in which count is the maximum
+			switch x := h64(child, sub, k+1000); x % 3 {
+			case 0:
+				return nil
+			case 1:
+				return vk.Ptr(true)
+			default:
+				return vk.Ptr(false)
+			}
+		}
 		w.cntRule = func(child int, sub string, k int) uint64 {
 			x := h64(child, sub, k)
 			switch x % 9 {
@@ -82,6 +113,9 @@ func TestVerif_C09(t *testing.T) {
 		}
 		h := mocrelay.NewMergeHandler(mkChildren(w, nch)...)
 		nev := 1 + r.IntN(3)
+		if mode == 4 {
+			nev = 8
+		}
 		events := make([]*mocrelay.Event, nev)
 		for k := range events {
 			events[k] = vk.Seal(&mocrelay.Event{Kind: 1, Pubkey: vk.FakePub(900), CreatedAt: int64(1000 + k), Content: fmt.Sprintf("c09-%d-%d", i, k)})
@@ -124,6 +158,9 @@ func TestVerif_C09(t *testing.T) {
 			switch c := r.IntN(10); {
 			case c < 6:
 				e := vk.Pick(r, events)
+				if mode == 4 {
+					e = events[q] // every id once: reasons need not identify the submission
+				}
 				sentEv[e.ID]++
 				log = append(log, fmt.Sprintf("> EVENT %.8s (submission %d)", e.ID, sentEv[e.ID]-1))
 				shape += "E"
